@@ -80,7 +80,7 @@ META = {
     "C07": dict(
         level_text="Each case performs one or two real truncations of a generated two-node ledger (>=1001 filler vertices each) and compares per-tip per-address balances across the cut, by-hash reads, moved == checkpointed, checkpoint funds == net flow of checkpointed vertices, refusal of re-submissions with unchanged snapshot, and the twin node's decisions on follow-ups.",
         design_ref="DESIGN.md §4 C07",
-        level_note="A truncation error is accepted only when some tip has fewer than 1000 live ancestors (premise of the call) and then the ledger must be unchanged. Addresses whose true checkpointed net is negative (genesis issuer) are excluded from the funds equality. 'Truncation racing with proposals': one race scenario per process (4 in thorough) runs the real truncate against readers of untouched wallets and proposers of an overdrawing spend; interleavings are sampled.",,
+        level_note="A truncation error is accepted only when some tip has fewer than 1000 live ancestors (premise of the call) and then the ledger must be unchanged. Addresses whose true checkpointed net is negative (genesis issuer) are excluded from the funds equality. 'Truncation racing with proposals': one race scenario per process (4 in thorough) runs the real truncate against readers of untouched wallets and proposers of an overdrawing spend; interleavings are sampled.",
         technique="stateful property-based testing (rapid) with a twin-node differential and before/after metamorphic relations",
     ),
     "C04": dict(
